@@ -8,6 +8,9 @@ EFF = {"pa": "print('a')", "pae": "print('a', end='')", "pn": "print()", "pas": 
        "pnn": "print('\\n')", "in": "v = input('p')", "st": "sys.settrace(None)",
        "im": "import helper_mod"}
 HELPER_MOD = "def helper_value():\n    return 41\nLOADED = helper_value() + 1\n"
+EXTRA_FILES = {"helper_mod.py": HELPER_MOD, "bad_mod.py": "y = 2\nraise ValueError('in helper file')\n",
+               "exit_mod.py": "import sys\nsys.exit(2)\n", "fn_mod.py": "def boom():\n    raise KeyError('k')\n",
+               "kb_mod.py": "raise KeyboardInterrupt\n"}
 MODE_STMT = {"normal": "pass", "exc": "raise ValueError('boom')", "excBrokenStr": "raise BrokenStr()",
              "excBrokenRepr": "raise BrokenRepr()", "exit": "exit()", "sysexit": "sys.exit(3)",
              "raiseSysExit": "raise SystemExit", "recursion": "rec()", "syntax": "x = (",
@@ -30,6 +33,9 @@ MODE_STMT = {"normal": "pass", "exc": "raise ValueError('boom')", "excBrokenStr"
              "x:tuplekey": "raise KeyError(('a', 1))",
              "x:chained": (["try:", "    1 / 0", "except ZeroDivisionError as e:", "    raise ValueError('second') from e"], 3),
              "x:ctxchained": (["try:", "    1 / 0", "except ZeroDivisionError:", "    undefined_name_q"], 3),
+             # failures inside a second student file reached through import (nested entry point Sandbox._import)
+             "x:importRaises": "import bad_mod", "x:importExit": "import exit_mod", "x:importFnRaises": (["import fn_mod", "fn_mod.boom()"], 1),
+             "x:fromImport": (["from fn_mod import boom", "boom()"], 1), "baseImport": "import kb_mod",
              # (lines, index of the line the failure is raised on)
              "reraise": (["try:", "    raise ValueError('boom')", "except ValueError:", "    cleanup = 1", "    raise"], 1),
              "nested": (["helper_raises()"], None)}
@@ -47,7 +53,8 @@ MODE_CLASS = {"exc": "ValueError", "excBrokenStr": "BrokenStr", "excBrokenRepr":
               "x:indent": "IndentationError", "x:noname": "", "x:lowername": "oops", "x:group": "ExceptionGroup",
               "x:unicode": "UnicodeEncodeError", "x:memory": "MemoryError", "x:notimpl": "NotImplementedError",
               "x:warn": "Warning", "x:stopasync": "StopAsyncIteration", "x:argsnonstr": "ValueError", "x:tuplekey": "KeyError",
-              "x:chained": "ValueError", "x:ctxchained": "NameError"}
+              "x:chained": "ValueError", "x:ctxchained": "NameError", "x:importRaises": "ValueError", "x:importExit": "SystemExit",
+              "x:importFnRaises": "KeyError", "x:fromImport": "KeyError"}
 # modes whose failure is raised on the student's own line (location is checked only for these)
 STUDENT_LINE = {"exc", "excBrokenStr", "excBrokenRepr", "raiseSysExit", "sysexit", "x:keyBare", "x:key", "x:zero",
                 "x:name", "x:type", "x:index", "x:attr", "x:assert", "x:bareexc", "x:args2", "x:custominit",
@@ -116,7 +123,7 @@ class Harness:
         self.file = file
         self.src, self.where = concretise(file)
         self.report = Report()
-        self.report.contextualize(Submission(files={"answer.py": self.src, "helper_mod.py": HELPER_MOD},
+        self.report.contextualize(Submission(files=dict(EXTRA_FILES, **{"answer.py": self.src}),
                                              main_file="answer.py", main_code=self.src))
         self.sandbox = self.report["sandbox"]["sandbox"]
         self.sandbox.allowed_time = 5
